@@ -50,11 +50,13 @@ def configs(quick):
     c.append(dict(name="screening_sweep", dev="ring", lam=0.8, screening=True, sweep=True, adaptive=False, T=0.03))
     # a screened run started from a seed solution (the seed object is used twice in the worker)
     c.append(dict(name="screening_seeded", dev="ring", lam=0.5, screening=True, seeded=True, adaptive=False, T=0.04))
+    # a mesh with more than a thousand sites (anything done in blocks or pools only above a size threshold), short run
+    c.append(dict(name="large_mesh", dev="ring", mel=0.16, adaptive=False, dt=1e-3, T=0.004))
     if not quick:
         c += [dict(name="timedep_current_adaptive", dev="bar_hole", timedep_current=True, adaptive=True, T=0.2),
               dict(name="screening_fixed", dev="union", lam=0.5, screening=True, adaptive=False, T=0.06),
               # a mesh with more than a thousand sites: the screening kernel must not split its sums by thread count
-              dict(name="screening_large_mesh", dev="ring", mel=0.22, lam=0.5, screening=True, adaptive=False, T=0.02)]
+              dict(name="screening_large_mesh", dev="ring", mel=0.17, lam=0.5, screening=True, adaptive=False, T=0.02)]
     return c
 
 
